@@ -28,10 +28,11 @@ theorem obs_start_fail (K : Nat) (m : M12) : M12.obs K m (.call .motion .start f
 theorem obs_stop (K : Nat) (m : M12) (ok : Bool) :
     M12.obs K m (.call .motion .stop ok) = { m with openRec := false } := rfl
 
-/-- observations that are not calls on the motion sink -/
+/-- calls on the continuous-recorder or test-recording sink -/
 def offMotion : Obs → Bool
-  | .call .motion _ _ => false
-  | _ => true
+  | .call .const _ _ => true
+  | .call .test _ _ => true
+  | _ => false
 
 theorem obs_off (K : Nat) (m : M12) (o : Obs) (h : offMotion o = true) : M12.obs K m o = m := by
   cases o with
@@ -39,7 +40,7 @@ theorem obs_off (K : Nat) (m : M12) (o : Obs) (h : offMotion o = true) : M12.obs
     cases s with
     | motion => exact absurd h (by simp [offMotion])
     | _ => cases cl <;> cases ok <;> rfl
-  | _ => rfl
+  | _ => exact absurd h (by simp [offMotion])
 
 theorem isWrite_off (o : Obs) (h : offMotion o = true) : o.isWrite .motion = none := by
   cases o with
@@ -48,6 +49,12 @@ theorem isWrite_off (o : Obs) (h : offMotion o = true) : o.isWrite .motion = non
     | motion => exact absurd h (by simp [offMotion])
     | _ => cases cl <;> simp [Obs.isWrite]
   | _ => rfl
+
+theorem offMotion_iff (o : Obs) :
+    offMotion o = true ↔ ∃ cl ok, o = Obs.call .const cl ok ∨ o = Obs.call .test cl ok := by
+  cases o with
+  | call s cl ok => cases s <;> simp [offMotion]
+  | _ => simp [offMotion]
 
 theorem fold_off (K : Nat) : ∀ (os : List Obs) (m : M12), os.all offMotion = true →
     os.foldl (M12.obs K) m = m := by
@@ -306,7 +313,7 @@ theorem det_spec (c : PCfg) (s : PState) (m : M12) (motion : Bool) (f : Faults) 
         · by_cases hn : lo = s.n
           · simp only [hn, Nat.sub_self, List.range'_zero, List.map_nil, List.foldl_nil]; exact hfl
           · have e : s.n - lo = (s.n - lo - 1) + 1 := by omega
-            rw [e, fold_writes_first c.K _ _ lo hfl rfl (by simp only [hcur]; exact hlo')]
+            rw [e, fold_writes_first c.K (s.n - lo - 1) { m with openRec := true, last := none } lo hfl rfl (by simp only [hcur]; exact hlo')]
             exact hfl
         · intro _
           by_cases hn : lo = s.n
@@ -314,13 +321,13 @@ theorem det_spec (c : PCfg) (s : PState) (m : M12) (motion : Bool) (f : Faults) 
             refine ⟨by simp only; omega, ?_⟩
             simp only [hcur]; omega
           · have e : s.n - lo = (s.n - lo - 1) + 1 := by omega
-            rw [e, fold_writes_first c.K _ _ lo hfl rfl (by simp only [hcur]; exact hlo')]
+            rw [e, fold_writes_first c.K (s.n - lo - 1) { m with openRec := true, last := none } lo hfl rfl (by simp only [hcur]; exact hlo')]
             refine ⟨by simp only; omega, ?_⟩
             simp only; omega
 
 /-- stage 2: the write of the frame itself -/
 theorem wr_spec (K : Nat) (s : PState) (m : M12) (id k : Nat) (f : Faults)
-    (hfl : m.fails = []) (hcur : m.cur = id) (hw : s.isRec = true → WOK K m id) :
+    (hfl : m.fails = []) (hw : s.isRec = true → WOK K m id) :
     (wr s id k f).1.ring = s.ring ∧ (wr s id k f).1.n = s.n ∧ (wr s id k f).1.isRec = s.isRec ∧
     ((wr s id k f).2.foldl (M12.obs K) m).fails = [] ∧
     (s.isRec = true → ((wr s id k f).2.foldl (M12.obs K) m).last = some id ∧
@@ -380,6 +387,319 @@ theorem fin_spec (K : Nat) (s : PState) (m : M12) (f : Faults) :
     · exact Or.inl ⟨by rw [h2]; exact h7.symm, h8⟩
     · exact Or.inr ⟨h7, h2, h8⟩
   · exact ⟨rfl, rfl, rfl, rfl, Or.inl ⟨rfl, rfl⟩⟩
+
+/-! ## the sinks the monitor ignores -/
+
+theorem const_spec (c : PCfg) (s : PState) (id : Nat) (f : Faults) :
+    (processConstantRecorder c s id f).1.ring = s.ring ∧ (processConstantRecorder c s id f).1.n = s.n ∧
+    (processConstantRecorder c s id f).1.isRec = s.isRec ∧
+    (processConstantRecorder c s id f).2.all offMotion = true := by
+  unfold processConstantRecorder
+  simp only
+  split
+  · exact ⟨rfl, rfl, rfl, rfl⟩
+  · split
+    · exact ⟨rfl, rfl, rfl, rfl⟩
+    · split <;> split <;> exact ⟨rfl, rfl, rfl, rfl⟩
+
+theorem stopConst_spec (c : PCfg) (s : PState) (f : Faults) :
+    (stopConstantRecorder c s f).1.ring = s.ring ∧ (stopConstantRecorder c s f).1.n = s.n ∧
+    (stopConstantRecorder c s f).1.isRec = s.isRec ∧
+    (stopConstantRecorder c s f).2.all offMotion = true := by
+  unfold stopConstantRecorder
+  split <;> exact ⟨rfl, rfl, rfl, rfl⟩
+
+theorem snap_spec (c : PCfg) (s : PState) (id : Nat) (f : Faults) :
+    (processSnapshot c s id f).1.ring = s.ring ∧ (processSnapshot c s id f).1.n = s.n ∧
+    (processSnapshot c s id f).1.isRec = s.isRec ∧
+    (processSnapshot c s id f).2.all offMotion = true := by
+  obtain ⟨ring, n, isRec, fw, wu, tr, cr, startSnap, snapRec, snapFrames⟩ := s
+  by_cases hlast : snapFrames + 1 > c.testLast <;>
+  cases startSnap <;> cases snapRec <;> cases h1 : f.tStart <;> cases h2 : f.tStop <;>
+    simp [processSnapshot, h1, h2, hlast, offMotion]
+
+/-! ## the product invariant -/
+
+/-- the part of the invariant that does not mention the frame counters of the monitor -/
+def PCore (K : Nat) (s : PState) (m : M12) : Prop :=
+  m.fails = [] ∧ ∃ mark, RBase K s.ring s.n mark ∧
+    (s.isRec = true → m.last = some (s.n - 1) ∧ 1 ≤ s.n ∧ m.nextFree = s.n) ∧
+    (s.isRec = false → mark = m.nextFree)
+
+/-- model state `s` and monitor state `m` between two events -/
+def PInv (K : Nat) (s : PState) (m : M12) : Prop := m.n = s.n ∧ PCore K s m
+
+theorem pcore_congr {K : Nat} {s s' : PState} {m m' : M12}
+    (h1 : s'.ring = s.ring) (h2 : s'.n = s.n) (h3 : s'.isRec = s.isRec)
+    (h4 : m'.fails = m.fails) (h5 : m'.last = m.last) (h6 : m'.nextFree = m.nextFree)
+    (h : PCore K s m) : PCore K s' m' := by
+  unfold PCore at h ⊢
+  rw [h1, h2, h3, h4, h5, h6]
+  exact h
+
+theorem pinv_init (c : PCfg) (hK : 0 < c.K) : PInv c.K (PState.init c) {} :=
+  ⟨rfl, rfl, 0, rbase_init c.K hK, fun h => by simp [PState.init] at h, fun _ => rfl⟩
+
+/-- `stopRecording` keeps the core invariant -/
+theorem pcore_stop (K : Nat) (s : PState) (m : M12) (b : Bool) (h : PCore K s m) :
+    PCore K (s.stopRecording b).1 ((s.stopRecording b).2.foldl (M12.obs K) m) := by
+  obtain ⟨hfl, mark, hb, hrec, hnrec⟩ := h
+  obtain ⟨h1, h2, h3, h4, h5, h6⟩ := stop_spec K s m b
+  refine ⟨by rw [h3]; exact hfl, ?_⟩
+  rcases h6 with ⟨h7, h8⟩ | ⟨h7, h8⟩
+  · refine ⟨mark, by rw [h8, h1]; exact hb, fun h => by rw [h2] at h; simp at h, fun _ => ?_⟩
+    rw [h5]; exact hnrec h7
+  · refine ⟨s.n, by rw [h8, h1]; exact rbase_mark hb, fun h => by rw [h2] at h; simp at h, fun _ => ?_⟩
+    rw [h5]; exact (hrec h7).2.2.symm
+
+/-- `process` on frame `s.n` (already parsed into the current slot) -/
+theorem process_spec (c : PCfg) (s : PState) (m : M12) (motion : Bool) (f : Faults)
+    (hf : f.mWriteFail = 0) (hcur : m.cur = s.n) (h : PCore c.K s m) :
+    (process c { s with ring := s.ring.write s.n } motion f).1.n = s.n ∧
+    PCore c.K { (process c { s with ring := s.ring.write s.n } motion f).1 with n := s.n + 1 }
+      ((process c { s with ring := s.ring.write s.n } motion f).2.foldl (M12.obs c.K) m) := by
+  obtain ⟨hfl, mark, hb, hrec, hnrec⟩ := h
+  rw [process_eq]
+  simp only [List.foldl_append]
+  have hK := rbase_size hb
+  have hd := det_spec c { s with ring := s.ring.write s.n } m motion f (loOf c.K s.n mark) hf
+    (rbase_history hb) (loOf_le c.K s.n mark hK (rbase_mark_le hb)) hcur hfl hrec
+    (fun h => by unfold loOf; rw [hnrec h]; exact Nat.max_comm _ _)
+  generalize det c { s with ring := s.ring.write s.n } motion f = r1 at hd ⊢
+  obtain ⟨d1, d2, d3, d4, d5⟩ := hd
+  have hw := wr_spec c.K r1.1.1 (r1.1.2.foldl (M12.obs c.K) m) s.n r1.2 f d3 d4
+  generalize hm1 : r1.1.2.foldl (M12.obs c.K) m = m1 at hw d3 d4 d5 ⊢
+  show (fin (wr r1.1.1 s.n r1.2 f).1 f).1.n = s.n ∧ _
+  generalize wr r1.1.1 s.n r1.2 f = r2 at hw ⊢
+  obtain ⟨w1, w2, w3, w4, w5, w6⟩ := hw
+  have hfin := fin_spec c.K r2.1 (r2.2.foldl (M12.obs c.K) m1) f
+  generalize hm2 : r2.2.foldl (M12.obs c.K) m1 = m2 at hfin w4 w5 w6 ⊢
+  generalize fin r2.1 f = r3 at hfin ⊢
+  obtain ⟨f1, f2, f3, f4, f5⟩ := hfin
+  have hring : r2.1.ring.move = (s.ring.write s.n).move := by rw [w1, d1]
+  refine ⟨by rw [f1, w2, d2], by rw [f2]; exact w4, ?_⟩
+  rcases f5 with ⟨g1, g2⟩ | ⟨g1, g2, g3⟩
+  · refine ⟨mark, ?_, ?_, ?_⟩
+    · show RBase c.K r3.1.ring (s.n + 1) mark
+      rw [g2, hring]; exact rbase_accept hb
+    · intro hr
+      have hr1 : r1.1.1.isRec = true := by rw [← w3, ← g1]; exact hr
+      obtain ⟨a1, a2⟩ := w5 hr1
+      show (r3.2.foldl (M12.obs c.K) m2).last = some (s.n + 1 - 1) ∧ 1 ≤ s.n + 1 ∧
+        (r3.2.foldl (M12.obs c.K) m2).nextFree = s.n + 1
+      rw [f3, f4, a1, a2]
+      exact ⟨rfl, by omega, rfl⟩
+    · intro hr
+      have hr1 : r1.1.1.isRec = false := by rw [← w3, ← g1]; exact hr
+      obtain ⟨a1, a2⟩ := d5 hr1
+      rw [f4, w6 hr1, a2]
+      exact hnrec a1
+  · refine ⟨s.n + 1, ?_, ?_, ?_⟩
+    · show RBase c.K r3.1.ring (s.n + 1) (s.n + 1)
+      rw [g3, hring]; exact rbase_mark (rbase_accept hb)
+    · intro hr
+      have : r3.1.isRec = true := hr
+      rw [g2] at this; simp at this
+    · intro _
+      have hr1 : r1.1.1.isRec = true := by rw [← w3]; exact g1
+      rw [f4, (w5 hr1).2]
+
+/-! ## one event -/
+
+/-- the monitor state at the start of an event, before its observations are folded in -/
+def pre (m : M12) (b : Bool) : M12 :=
+  let m := if b then { m with tainted := true } else m
+  { m with cur := m.n }
+
+theorem step_eq (K : Nat) (m : M12) (st : Step) :
+    M12.step K m st =
+      (if st.ev.isFrame then
+        { st.obs.foldl (M12.obs K) (pre m st.motionWriteFault) with
+          n := (st.obs.foldl (M12.obs K) (pre m st.motionWriteFault)).n + 1 }
+       else st.obs.foldl (M12.obs K) (pre m st.motionWriteFault)) := rfl
+
+theorem pre_cur (m : M12) (b : Bool) : (pre m b).cur = m.n := by cases b <;> rfl
+theorem pre_n (m : M12) (b : Bool) : (pre m b).n = m.n := by cases b <;> rfl
+theorem pre_fails (m : M12) (b : Bool) : (pre m b).fails = m.fails := by cases b <;> rfl
+theorem pre_last (m : M12) (b : Bool) : (pre m b).last = m.last := by cases b <;> rfl
+theorem pre_nextFree (m : M12) (b : Bool) : (pre m b).nextFree = m.nextFree := by cases b <;> rfl
+
+theorem pcore_pre {K : Nat} {s : PState} {m : M12} (b : Bool) (h : PCore K s m) : PCore K s (pre m b) :=
+  pcore_congr rfl rfl rfl (pre_fails m b) (pre_last m b) (pre_nextFree m b) h
+
+theorem processFrame_eq (c : PCfg) (s : PState) (motion : Bool) (f : Faults) :
+    processFrame c s motion f =
+      (let p := process c { s with ring := s.ring.write s.n } motion f
+       let q := processConstantRecorder c p.1 s.n f
+       let t := processSnapshot c q.1 s.n f
+       ({ t.1 with n := s.n + 1 }, p.2 ++ q.2 ++ t.2)) := rfl
+
+theorem pinv_frame (c : PCfg) (s : PState) (m : M12) (motion : Bool) (f : Faults)
+    (hf : f.mWriteFail = 0) (h : PInv c.K s m) :
+    PInv c.K (processFrame c s motion f).1
+      (M12.step c.K m ⟨.frame motion f, (processFrame c s motion f).2⟩) := by
+  obtain ⟨hn, hc⟩ := h
+  rw [step_eq]
+  simp only [Ev.isFrame, if_true]
+  generalize Step.motionWriteFault _ = b
+  rw [processFrame_eq]
+  simp only [List.foldl_append]
+  have hp := process_spec c s (pre m b) motion f hf (by rw [pre_cur, hn]) (pcore_pre b hc)
+  generalize process c { s with ring := s.ring.write s.n } motion f = p at hp ⊢
+  obtain ⟨p1, p2⟩ := hp
+  obtain ⟨q1, q2, q3, q4⟩ := const_spec c p.1 s.n f
+  generalize processConstantRecorder c p.1 s.n f = q at q1 q2 q3 q4 ⊢
+  obtain ⟨t1, t2, t3, t4⟩ := snap_spec c q.1 s.n f
+  generalize processSnapshot c q.1 s.n f = t at t1 t2 t3 t4 ⊢
+  rw [fold_off c.K q.2 _ q4, fold_off c.K t.2 _ t4]
+  refine ⟨?_, ?_⟩
+  · show (p.2.foldl (M12.obs c.K) (pre m b)).n + 1 = s.n + 1
+    rw [fold_n, pre_n, hn]
+  · exact pcore_congr (s := { p.1 with n := s.n + 1 }) (m := p.2.foldl (M12.obs c.K) (pre m b))
+      (show t.1.ring = p.1.ring by rw [t1, q1]) rfl (show t.1.isRec = p.1.isRec by rw [t3, q3]) rfl rfl rfl p2
+
+theorem pinv_bad (c : PCfg) (s : PState) (m : M12) (f : Faults) (h : PInv c.K s m) :
+    PInv c.K (processBad c s f).1 (M12.step c.K m ⟨.bad f, (processBad c s f).2⟩) := by
+  obtain ⟨hn, hc⟩ := h
+  rw [step_eq]
+  simp only [Ev.isFrame, Bool.false_eq_true, if_false]
+  generalize Step.motionWriteFault _ = b
+  have e : processBad c s f =
+      (let p := stopRecording { s with ring := s.ring.write garbage } f.mStop
+       let q := stopConstantRecorder c p.1 f
+       (q.1, p.2 ++ q.2)) := rfl
+  rw [e]
+  simp only [List.foldl_append]
+  have hc' : PCore c.K { s with ring := s.ring.write garbage } (pre m b) := by
+    obtain ⟨hfl, mark, hb, hrec, hnrec⟩ := pcore_pre b hc
+    exact ⟨hfl, mark, rbase_write garbage hb, hrec, hnrec⟩
+  have hp := pcore_stop c.K { s with ring := s.ring.write garbage } (pre m b) f.mStop hc'
+  have hpn := (stop_spec c.K { s with ring := s.ring.write garbage } (pre m b) f.mStop).1
+  generalize stopRecording { s with ring := s.ring.write garbage } f.mStop = p at hp hpn ⊢
+  obtain ⟨q1, q2, q3, q4⟩ := stopConst_spec c p.1 f
+  generalize stopConstantRecorder c p.1 f = q at q1 q2 q3 q4 ⊢
+  rw [fold_off c.K q.2 _ q4]
+  refine ⟨?_, pcore_congr q1 q2 q3 rfl rfl rfl hp⟩
+  show (p.2.foldl (M12.obs c.K) (pre m b)).n = q.1.n
+  rw [fold_n, pre_n, hn, q2, hpn]
+
+theorem pinv_reset (c : PCfg) (s : PState) (m : M12) (f : Faults) (h : PInv c.K s m) :
+    PInv c.K (s.stopRecording f.mStop).1 (M12.step c.K m ⟨.reset f, (s.stopRecording f.mStop).2⟩) := by
+  obtain ⟨hn, hc⟩ := h
+  rw [step_eq]
+  simp only [Ev.isFrame, Bool.false_eq_true, if_false]
+  generalize Step.motionWriteFault _ = b
+  refine ⟨?_, pcore_stop c.K s (pre m b) f.mStop (pcore_pre b hc)⟩
+  rw [fold_n, pre_n, hn, (stop_spec c.K s (pre m b) f.mStop).1]
+
+theorem pinv_step (c : PCfg) (s : PState) (m : M12) (ev : Ev)
+    (hf : ev.faults.mWriteFail = 0) (h : PInv c.K s m) :
+    PInv c.K (PState.step c s ev).1 (M12.step c.K m ⟨ev, (PState.step c s ev).2⟩) := by
+  cases ev with
+  | frame motion f => exact pinv_frame c s m motion f hf h
+  | bad f => exact pinv_bad c s m f h
+  | reset f => exact pinv_reset c s m f h
+  | testReq =>
+    obtain ⟨hn, hc⟩ := h
+    rw [step_eq]
+    simp only [Ev.isFrame, Bool.false_eq_true, if_false]
+    generalize Step.motionWriteFault _ = b
+    exact ⟨by show (pre m b).n = s.n; rw [pre_n, hn], pcore_congr rfl rfl rfl rfl rfl rfl (pcore_pre b hc)⟩
+
+/-! ## all event lists -/
+
+theorem pinv_trace (c : PCfg) : ∀ (evs : List Ev) (s : PState) (m : M12),
+    (∀ ev ∈ evs, ev.faults.mWriteFail = 0) → PInv c.K s m →
+    PInv c.K (PState.after c s evs) ((PState.trace c s evs).foldl (M12.step c.K) m) := by
+  intro evs
+  induction evs with
+  | nil => intro s m _ h; exact h
+  | cons e es ih =>
+    intro s m hw h
+    simp only [PState.after, PState.trace, List.foldl_cons]
+    exact ih _ _ (fun ev hev => hw ev (List.mem_cons_of_mem _ hev))
+      (pinv_step c s m e (hw e (List.mem_cons_self ..)) h)
+
+/-! ## the observations of an event that starts a recording (for C02) -/
+
+theorem fin_obs (s : PState) (f : Faults) :
+    (fin s f).2 = [] ∨ (fin s f).2 = [Obs.re, Obs.call .motion .stop f.mStop] := by
+  unfold fin
+  simp only
+  split
+  · rename_i h
+    simp only [Bool.and_eq_true] at h
+    have e : stopRecording { s with ring := s.ring.move } f.mStop = ({ s with framesWritten := 0, writeUntil := 0, isRec := false, triggered := 0, ring := s.ring.move.setAsOldest }, [Obs.re, Obs.call .motion .stop f.mStop]) := by
+      simp only [stopRecording, h.1, Bool.not_true, Bool.false_eq_true, if_false]
+    rw [e]; exact Or.inr rfl
+  · exact Or.inl rfl
+
+theorem processFrame_start (c : PCfg) (s : PState) (f : Faults) (lo : Nat)
+    (hf : f.mWriteFail = 0) (hwin : f.win = true) (hcan : f.can = true) (hst : f.mStart = true)
+    (hrec : s.isRec = false) (htr : c.trig ≤ s.triggered + 1)
+    (hh : (s.ring.write s.n).history = some (List.range' lo (s.n + 1 - lo))) (hlo : lo ≤ s.n) :
+    ∃ tail side : List Obs,
+      (tail = [] ∨ tail = [Obs.re, Obs.call .motion .stop f.mStop]) ∧ side.all offMotion = true ∧
+      (processFrame c s true f).2 = startPre ++ (List.range' lo (s.n + 1 - lo)).map W ++ tail ++ side := by
+  rw [processFrame_eq, process_eq]
+  have e := det_start c { s with ring := s.ring.write s.n } f lo hf hwin hcan hst hrec htr hh hlo
+  simp only at e ⊢
+  rw [e]
+  have ew : ∀ s' : PState, s'.isRec = true → wr s' s.n (s.n - lo) f =
+      ({ s' with framesWritten := s'.framesWritten + 1 }, [W s.n]) := by
+    intro s' h
+    simp [wr, h, hf]
+  rw [ew _ rfl]
+  simp only
+  have er : List.range' lo (s.n + 1 - lo) = List.range' lo (s.n - lo) ++ [s.n] := by
+    have : s.n + 1 - lo = (s.n - lo) + 1 := by omega
+    rw [this, List.range'_concat]
+    congr 2; omega
+  rw [er, List.map_append]
+  generalize hfin : fin _ f = r3
+  have h3 : r3.2 = [] ∨ r3.2 = [Obs.re, Obs.call .motion .stop f.mStop] := by
+    rw [← hfin]; exact fin_obs _ f
+  obtain ⟨_, _, _, q4⟩ := const_spec c r3.1 s.n f
+  generalize processConstantRecorder c r3.1 s.n f = q at q4 ⊢
+  obtain ⟨_, _, _, t4⟩ := snap_spec c q.1 s.n f
+  generalize processSnapshot c q.1 s.n f = t at t4 ⊢
+  refine ⟨r3.2, q.2 ++ t.2, h3, by rw [List.all_append, q4, t4]; rfl, ?_⟩
+  simp only [List.append_assoc, List.map_cons, List.map_nil]
+
+/-! ## the monitor's `nextFree` is determined by the motion-sink writes alone -/
+
+/-- one more than the largest id written to the motion sink -/
+def bumpFree (a : Nat) (o : Obs) : Nat :=
+  match o.isWrite .motion with
+  | some (id, _) => max a (id + 1)
+  | none => a
+
+theorem obs_nextFree (K : Nat) (m : M12) (o : Obs) : (M12.obs K m o).nextFree = bumpFree m.nextFree o := by
+  cases o with
+  | call s cl ok => cases s <;> cases cl <;> cases ok <;> rfl
+  | _ => rfl
+
+theorem fold_nextFree (K : Nat) : ∀ (os : List Obs) (m : M12),
+    (os.foldl (M12.obs K) m).nextFree = os.foldl bumpFree m.nextFree := by
+  intro os
+  induction os with
+  | nil => intro m; rfl
+  | cons o os ih => intro m; rw [List.foldl_cons, ih, obs_nextFree, List.foldl_cons]
+
+theorem step_nextFree (K : Nat) (m : M12) (st : Step) :
+    (M12.step K m st).nextFree = st.obs.foldl bumpFree m.nextFree := by
+  rw [step_eq]
+  split
+  · show (st.obs.foldl (M12.obs K) (pre m st.motionWriteFault)).nextFree = _
+    rw [fold_nextFree, pre_nextFree]
+  · rw [fold_nextFree, pre_nextFree]
+
+theorem trace_nextFree (K : Nat) : ∀ (tr : List Step) (m : M12),
+    (tr.foldl (M12.step K) m).nextFree = tr.foldl (fun a st => st.obs.foldl bumpFree a) m.nextFree := by
+  intro tr
+  induction tr with
+  | nil => intro m; rfl
+  | cons st tr ih => intro m; rw [List.foldl_cons, ih, step_nextFree, List.foldl_cons]
 
 end P01
 end TR
